@@ -18,6 +18,9 @@
 // `_readers_wait` ("w", as a signed 32 bit number) and the spinlock word ("l"), and markers
 //   cfg F=<FIFO> R=<ReadersFIFO> K=<coroutines> Y=<bystander rounds>
 //   sub <id>          Submit of coroutine <id> (by Run(node), or by `co_await On`)
+//   subi <id>         Submit of coroutine <id> to the INLINE executor: it runs inside this call, on this thread, until it
+//                     suspends or finishes (programs: a coroutine written "i:<rounds>" switches to the inline executor
+//                     after it has been started, so Run(node) resumes it synchronously inside the unlocker)
 //   st<id>            coroutine runs for the first time on its executor
 //   q<id> <S|W>       blocking request begins (shared / exclusive)          t<id> <S|W>   Try form begins
 //   ty<id> / tn<id>   the Try form answered true / false
@@ -80,6 +83,7 @@ struct Round {
 
 struct CoSpec {
   std::vector<Round> rounds;
+  bool inl = false;  // after it has been started its executor is the inline one: Run(node) resumes it synchronously
 };
 
 struct Cfg {
@@ -118,6 +122,7 @@ struct ExecBase : yaclib::IExecutor {
 struct Ctx {
   Cfg cfg;
   std::unique_ptr<ExecBase> exe;
+  std::unique_ptr<ExecBase> inl;  // what yaclib::MakeInline() does, behind a wrapper that reports Submit
   std::map<std::uintptr_t, int> core2id;  // address of the coroutine's Node (what executors see) -> id
   yaclib_std::atomic<int> tick{0};        // a wrapped operation = an explored preemption point inside the section
   yaclib::detail::fiber::FiberQueue all_done;
@@ -248,6 +253,15 @@ struct PoolExec final : ExecBase {
   }
 };
 
+// An executor that runs the job inside Submit, like yaclib::MakeInline() (the default executor of every Future<>
+// coroutine): a coroutine parked in the mutex is resumed on the unlocker's thread, inside its Run(node).
+struct InlineExec final : ExecBase {
+  void Submit(yaclib::Job& job) noexcept final {
+    vrt::Event("subi " + Ctx::S(c->Id(job)));
+    job.Call();
+  }
+};
+
 struct Self {
   void* p = nullptr;
   bool await_ready() const noexcept {
@@ -271,6 +285,9 @@ yaclib::Future<> Co(Ctx* c, M* m, int id) {
   const CoSpec& spec = c->cfg.cos[static_cast<std::size_t>(id)];
   co_await yaclib::On(*c->exe);
   vrt::Event("st" + Ctx::S(id));
+  if (spec.inl) {
+    co_await yaclib::On(*c->inl);  // continues at once, on this thread; from now on every resumption is synchronous
+  }
   for (const Round& rd : spec.rounds) {
     const bool w = IsWriter(rd.lock);
     if (!IsGuardForm(rd.lock)) {
@@ -291,6 +308,9 @@ yaclib::Future<> Co(Ctx* c, M* m, int id) {
       c->Tick();
       if (rd.hop) {
         co_await yaclib::On(*c->exe);
+        if (spec.inl) {
+          co_await yaclib::On(*c->inl);
+        }
         vrt::Event("h" + Ctx::S(id));
       }
       c->Leave(id, w);
@@ -317,6 +337,9 @@ yaclib::Future<> Co(Ctx* c, M* m, int id) {
         c->Tick();
         if (rd.hop) {
           co_await yaclib::On(*c->exe);
+          if (spec.inl) {
+            co_await yaclib::On(*c->inl);
+          }
           vrt::Event("h" + Ctx::S(id));
         }
         c->Leave(id, true);
@@ -342,6 +365,9 @@ yaclib::Future<> Co(Ctx* c, M* m, int id) {
         c->Tick();
         if (rd.hop) {
           co_await yaclib::On(*c->exe);
+          if (spec.inl) {
+            co_await yaclib::On(*c->inl);
+          }
           vrt::Event("h" + Ctx::S(id));
         }
         c->Leave(id, false);
@@ -365,13 +391,14 @@ struct Red {
   const std::uint32_t* size = nullptr;
   const std::uint32_t* prio = nullptr;
   std::uint64_t holder = 0;              // fiber that holds the spinlock (valid while the word is 1)
-  std::uint32_t before = 0;              // value of the spinlock word before the operation in progress
+  bool locked = false;                   // shadow of the spinlock word, maintained by the after-hook
   const volatile void* obj = nullptr;    // object / name of the operation the running fiber is at (set by both hooks)
   std::string op;
   std::set<std::uint64_t> blocked;       // fibers parked by the explorer in front of the held spinlock
   bool atomic_sections = false;
   bool named_only = false;
   std::uint64_t forced = 0;
+  std::uint64_t alone = 0;
   bool Held() const {
     if (spin == nullptr) {
       return false;
@@ -389,17 +416,23 @@ void MyBefore(const volatile void* obj, const char* op) {
   if (vrt::g.active) {
     gR.obj = obj;
     gR.op = op;
-    if (obj == gR.spin) {
-      std::memcpy(&gR.before, const_cast<const void*>(obj), sizeof gR.before);
-    }
   }
 }
 
 void MyAfter(const volatile void* obj, std::size_t size, const char* op) {
   auto& g = vrt::g;
   if (g.active) {
-    if (obj == gR.spin && std::strcmp(op, "exchange") == 0 && gR.before == 0) {
-      gR.holder = g.cur;
+    if (obj == gR.spin) {
+      // [locked] is the value of the word before this operation: it is only updated here, and no other fiber runs
+      // between an operation and its after-hook
+      if (std::strcmp(op, "exchange") == 0) {
+        if (!gR.locked) {
+          gR.holder = g.cur;
+        }
+        gR.locked = true;
+      } else if (std::strcmp(op, "store") == 0) {
+        gR.locked = false;
+      }
     }
     // The InjectFault() that follows belongs to THIS operation of THIS fiber.  The explorer's at_before / inject_second are
     // global: if this fiber was switched out in front of the operation (a decision of --yield-at both, or parked in front
@@ -421,6 +454,13 @@ void MyAfter(const volatile void* obj, std::size_t size, const char* op) {
   }
 }
 
+[[noreturn]] void Livelock(const char* why) {
+  std::fprintf(stdout, "CRASH signal=0 choices=%s\n", vrt::ChoicesToString(vrt::g.taken).c_str());
+  std::fprintf(stderr, "ORACLE the spinlock is never released (livelock): %s\n", why);
+  std::fflush(stdout);
+  _exit(70);
+}
+
 std::int64_t MyChoose(int kind, std::uint64_t n) {
   auto& g = vrt::g;
   if (kind == yaclib::verif::kYield && g.active && g.at_before) {
@@ -428,15 +468,18 @@ std::int64_t MyChoose(int kind, std::uint64_t n) {
     const bool held = gR.Held();
     if (!second && held && gR.obj == gR.spin && gR.op != "store") {
       // about to spin on the held lock: not a decision; come back when it is free
+      if (gR.holder == g.cur) {
+        Livelock("the thread that holds the spinlock tries to take it again (a coroutine resumed inside the section)");
+      }
+      if (vrt::detail::QueueEmpty() && ++gR.alone > 100000) {
+        Livelock("a thread spins on the held spinlock and nobody else can run");
+      }
       if (!vrt::detail::QueueEmpty()) {
         g.at_before = false;
         g.yielding = true;
         gR.blocked.insert(g.cur);
         if (++gR.forced > 200000) {
-          std::fprintf(stdout, "CRASH signal=0 choices=%s\n", vrt::ChoicesToString(g.taken).c_str());
-          std::fprintf(stderr, "ORACLE the spinlock is never released (livelock)\n");
-          std::fflush(stdout);
-          _exit(70);
+          Livelock("every runnable thread spins on it");
         }
         return 1;
       }
@@ -515,6 +558,8 @@ void RunWith(const Cfg& cfg) {
   gR.blocked.clear();
   gR.holder = 0;
   gR.forced = 0;
+  gR.alone = 0;
+  gR.locked = false;
   vrt::Event("cfg F=" + std::to_string(cfg.fifo) + " R=" + std::to_string(cfg.rfifo) + " K=" + std::to_string(k) +
              " Y=" + std::to_string(cfg.bystander.size()));
   ManualExec* manual = nullptr;
@@ -530,6 +575,8 @@ void RunWith(const Cfg& cfg) {
     c.exe = std::move(p);
   }
   c.exe->c = &c;
+  c.inl = std::make_unique<InlineExec>();
+  c.inl->c = &c;
   std::vector<yaclib_std::thread> ts;
   std::vector<yaclib::Future<>> fs;
   for (std::size_t i = 0; i < k; ++i) {
@@ -637,7 +684,7 @@ std::string Describe(const std::vector<Round>& rounds) {
 std::string Describe(const Cfg& cfg) {
   std::string s;
   for (auto& co : cfg.cos) {
-    s += " " + Describe(co.rounds);
+    s += std::string(" ") + (co.inl ? "i:" : "") + Describe(co.rounds);
   }
   if (!cfg.bystander.empty()) {
     s += " Y:" + Describe(cfg.bystander);
@@ -746,6 +793,13 @@ int main(int argc, char** argv) {
       // the holder is rescheduled inside its critical section: contention also on ONE worker
       "s^,w", "s,w^", "s^,w^", "gs:d^,gw:d^", "s^,s,w", "s^,s^,w", "s,s,w^", "s^,s^,w^", "s^,w,w", "s,w^,w", "s^,w^,w",
       "ts,w^", "s^,tw", "tw,w^", "s^+s,w^", "s^,w^+w", "s^+s^,w^+w^", "s^,s^,w^,w",
+      // inline executor (what MakeInline() does): coroutines parked behind an exclusive / shared holder are resumed
+      // synchronously inside the unlocker's Run(node), unlock (slow path when somebody else still waits) or lock again
+      "w^,i:w", "w^,i:s", "w^,i:w,i:s", "w^,i:s,i:s", "w^,i:w,i:w", "s^,i:w", "s^,i:w,i:s", "s^,i:w,i:w",
+      "w^,i:w,i:w,i:s", "w^,i:w,i:s,i:s", "w^,i:w,i:w,i:s,i:s",
+      "w^,i:w+w,i:s", "w^,i:s+s,i:w", "w^,i:s+w,i:w+s", "w^,i:gw:d+gs:d,i:gs:u+w",
+      "i:w^,i:w,i:s", "i:w^,i:w,i:w,i:s", "i:s^,i:w,i:s", "i:w^,i:w+s,i:s+w",
+      "w^,i:w,s", "w^,w,i:s", "i:w^,w,s", "w^,i:w,i:s,w,s", "i:w^,i:s,w,s",
       // bystanders
       "s,w/Y:tw", "s,w/Y:ts", "s,w/Y:tw+ts", "s,s,w/Y:ts+tw", "w,w/Y:ts",
   };
@@ -774,6 +828,10 @@ int main(int argc, char** argv) {
     bool ok = true;
     while (std::getline(ss, co, ',')) {
       CoSpec spec;
+      if (co.rfind("i:", 0) == 0) {
+        spec.inl = true;
+        co = co.substr(2);
+      }
       ok = ok && ParseRounds(co, spec.rounds);
       base.cos.push_back(spec);
     }
